@@ -36,6 +36,7 @@ import (
 	"google.golang.org/grpc/status"
 	"google.golang.org/protobuf/encoding/prototext"
 	"google.golang.org/protobuf/proto"
+	"google.golang.org/protobuf/reflect/protoreflect"
 
 	gpb "github.com/openconfig/gnmi/proto/gnmi"
 	aftpb "github.com/openconfig/gribi/v1/proto/gribi_aft"
@@ -1222,6 +1223,12 @@ func (r *RIBHolder) GetNextHopGroup(id uint64) (*aft.Afts_NextHopGroup, bool) {
 // candidateRIB takes the input set of Afts and returns them as a aft.RIB pointer
 // that can be merged into an existing RIB.
 func candidateRIB(a *aftpb.Afts) (*aft.RIB, error) {
+	// protomap cannot map enumerated values that are not defined in the schema, so
+	// reject them before handing the message to it.
+	if err := checkKnownEnums(a.ProtoReflect()); err != nil {
+		return nil, err
+	}
+
 	paths, err := protomap.PathsFromProto(a)
 	if err != nil {
 		return nil, err
@@ -1253,6 +1260,36 @@ func candidateRIB(a *aftpb.Afts) (*aft.RIB, error) {
 	}
 
 	return nr, nil
+}
+
+// checkKnownEnums walks the populated fields of m and returns an error if an
+// enumerated field is set to a number that its enumeration does not define.
+func checkKnownEnums(m protoreflect.Message) error {
+	var err error
+	m.Range(func(fd protoreflect.FieldDescriptor, v protoreflect.Value) bool {
+		check := func(v protoreflect.Value) {
+			switch {
+			case err != nil:
+			case fd.Kind() == protoreflect.EnumKind:
+				if fd.Enum().Values().ByNumber(v.Enum()) == nil {
+					err = fmt.Errorf("invalid value %d for enumerated field %s", v.Enum(), fd.FullName())
+				}
+			case fd.Kind() == protoreflect.MessageKind:
+				err = checkKnownEnums(v.Message())
+			}
+		}
+		switch {
+		case fd.IsList():
+			for i := 0; i < v.List().Len(); i++ {
+				check(v.List().Get(i))
+			}
+		case fd.IsMap():
+		default:
+			check(v)
+		}
+		return err == nil
+	})
+	return err
 }
 
 // AddIPv4 adds the IPv4 entry described by e to the RIB. If the explicitReplace
